@@ -359,8 +359,23 @@ def gen_limits(r):
     return min(a, b), max(a, b)
 
 
-def gen_world_new(r, kind=None, ns=None, loop=None, malformed=False):
-    kind = kind or r.pick(["hwmon", "hwmon", "hwmon", "file"])
+# share of `w` worlds whose fan is a real fans.CmdFan (real scripts, real processes: ~2 ms per exec,
+# several execs per op) when the caller does not fix the kind
+CMD_SHARE = 0.1
+# event lists of cmd worlds are cut to this length (each event costs a few process executions)
+CMD_MAX_EVENTS = 16
+
+
+def pick_world_kind(r, cmd_share=None, base=("hwmon", "hwmon", "hwmon", "file")):
+    """fan kind of a `w` world: `cmd` with probability cmd_share (default CMD_SHARE), else one of `base`"""
+    cmd_share = CMD_SHARE if cmd_share is None else cmd_share
+    if cmd_share > 0 and r.chance(cmd_share):
+        return "cmd"
+    return r.pick(list(base))
+
+
+def gen_world_new(r, kind=None, ns=None, loop=None, malformed=False, cmd_share=None):
+    kind = kind or pick_world_kind(r, cmd_share)
     ns = r.below(2) if ns is None else ns
     lo, hi = gen_limits(r)
     cfgmin = r.chance(0.4)
@@ -396,7 +411,11 @@ def gen_world_new(r, kind=None, ns=None, loop=None, malformed=False):
     return "w.new " + " ".join(toks)
 
 
-def gen_world_case(r, n_events=40, faults=True, malformed=False, kind=None, ns=None, loop=None, stall_bias=0.5):
+def gen_world_case(r, n_events=40, faults=True, malformed=False, kind=None, ns=None, loop=None, stall_bias=0.5,
+                   cmd_share=None, cmd_max_events=None):
+    kind = kind or pick_world_kind(r, cmd_share)
+    if kind == "cmd":
+        n_events = min(n_events, CMD_MAX_EVENTS if cmd_max_events is None else cmd_max_events)
     ops = ["#case w", gen_world_new(r, kind=kind, ns=ns, loop=loop, malformed=malformed)]
     now = r.range(1, 10**15)
     curve = r.range(0, 255)
